@@ -248,7 +248,7 @@ func Main(e Engine) {
 		runWorker(e, *mode, cases, *from)
 		return
 	}
-	meta := &Meta{Engine: e.Name(), Mode: *mode, Tier: *tier, Seed: *seed, Rule: e.Rule(*mode), Distribution: map[string]int{}, CorpusCases: ncorpus}
+	meta := &Meta{Engine: e.Name(), Mode: *mode, Tier: *tier, Seed: *seed, Rule: e.Rule(*mode), Distribution: map[string]int{}, CorpusCases: ncorpus, Shards: []string{}, Samples: []any{}}
 	seen := map[string]bool{}
 	jl, err := os.Create(filepath.Join(*out, "cases.jsonl"))
 	if err != nil {
